@@ -38,7 +38,7 @@ Next == idx < Len(Recs) /\ idx' = idx + 1
 Spec == Init /\ [][Next]_idx
 
 ClauseNames == {"C12_PathFixed", "C12_OneUsername", "C12_UsernameDecodesToName", "C12_OneServerId", "C12_ServerIdIsHash",
-                "C12_NoOtherParams", "C12_ErrorOnBadReply", "Note_HashIsSignedHex", "Note_ProfileFromReply"}
+                "C12_NoOtherParams", "C12_ErrorOnBadReply", "C11_RequestCarriesSignedHex", "Note_HashIsSignedHex", "Note_ProfileFromReply"}
 
 IsBytes(s) == \A i \in 1..Len(s) : s[i] \in 0..255
 WellFormed(r) == /\ r.line = idx /\ r.harness_error = ""
@@ -52,6 +52,7 @@ Clause(cl, r, ps) ==
     LET Each(P(_)) == \A k \in 1..Len(ps) : P(ps[k])
         Uname(p) == AllAre(p, KUser, r.vec.name)      OneU(p) == OneOf(p, KUser)
         Sid(p)   == AllAre(p, KSid, r.hash)           OneS(p) == OneOf(p, KSid)
+        SidMc(p) == AllAre(p, KSid, H!SignedHex(r.vec.digest))
     IN CASE cl = "C12_PathFixed"             -> Each(PathFixed)
          [] cl = "C12_OneUsername"           -> Each(OneU)
          [] cl = "C12_UsernameDecodesToName" -> Each(Uname)
@@ -59,6 +60,8 @@ Clause(cl, r, ps) ==
          [] cl = "C12_ServerIdIsHash"        -> Each(Sid)
          [] cl = "C12_NoOtherParams"         -> Each(NoOtherParams)
          [] cl = "C12_ErrorOnBadReply"       -> (r.vec.script # "ok" \/ Len(ps) = 0) => r.result = "err"
+         \* C11: the hash that is actually sent to the session service is Minecraft's signed hex of SHA-1(configured server id, secret, key)
+         [] cl = "C11_RequestCarriesSignedHex" -> Each(SidMc)
          [] cl = "Note_HashIsSignedHex"      -> r.hash = H!SignedHex(r.vec.digest)
          [] cl = "Note_ProfileFromReply"     -> (r.vec.script = "ok" /\ Len(ps) >= 1)
                                                    => (r.result = "ok" /\ r.profile.id = r.vec.reply_id /\ r.profile.name = r.vec.reply_name)
